@@ -60,7 +60,7 @@ func validateAny(path string, strict bool) error {
 
 var (
 	reValidate = regexp.MustCompile(`^validate \S+: `)
-	reWrapper  = regexp.MustCompile(`(optimize context|optimize resources|resource dict|document catalog|page [0-9]+( content decode)?|validation error \(obj#:[0-9]+\)( \(try --mode=relaxed\))?): `)
+	reWrapper  = regexp.MustCompile(`(optimize context|optimize resources|resource dict|document catalog|catalog Pages|page tree|kid obj#[0-9]+|page [0-9]+( content decode)?|validation error \(obj#:[0-9]+\)( \(try --mode=relaxed\))?): `)
 	reSubdict  = regexp.MustCompile(`missing required resource subdict: \w+:?`) // which subdict is named first depends on map order
 	rePath     = regexp.MustCompile(`\S*/\S+`)
 	reDigits   = regexp.MustCompile(`[0-9]+`)
@@ -159,11 +159,72 @@ func predictorStreamRewritten(inputs [][]byte, outPath string) bool {
 	return false
 }
 
+// sharedStreamRewritten reports whether the PDF at outPath has a content stream object that two or more
+// pages share and whose data is not one of the streams of the inputs: pdfcpu patched a shared content
+// stream in place (stamps, CreateFile on existing pages), which also changes pages that were not selected.
+func sharedStreamRewritten(inputs [][]byte, outPath string) bool {
+	known := map[[32]byte]bool{}
+	for _, b := range inputs {
+		d, _, _ := strictsec.Open(b, opwl.Passwords, pdfstrict.Options{})
+		if d == nil {
+			continue
+		}
+		for _, n := range d.Objects() {
+			e, _ := d.Entry(n)
+			if o, err := d.Get(pdfstrict.Ref{Num: n, Gen: e.Gen}); err == nil {
+				if st, ok := o.(*pdfstrict.Stream); ok && st.Plain != nil {
+					known[sha256.Sum256(st.Plain)] = true
+				}
+			}
+		}
+	}
+	data, err := os.ReadFile(outPath)
+	if err != nil {
+		return false
+	}
+	d, _, _ := strictsec.Open(data, opwl.Passwords, pdfstrict.Options{})
+	if d == nil {
+		return false
+	}
+	pages, _ := d.Pages()
+	users := map[int]int{}
+	for _, p := range pages {
+		var refs []pdfstrict.Object
+		switch c := p.Dict["Contents"].(type) {
+		case pdfstrict.Ref:
+			if a, ok := d.Resolve(c).(pdfstrict.Array); ok {
+				refs = a
+			} else {
+				refs = []pdfstrict.Object{c}
+			}
+		case pdfstrict.Array:
+			refs = c
+		}
+		seen := map[int]bool{}
+		for _, r := range refs {
+			if ref, ok := r.(pdfstrict.Ref); ok && !seen[ref.Num] {
+				seen[ref.Num] = true
+				users[ref.Num]++
+			}
+		}
+	}
+	for num, n := range users {
+		if n < 2 {
+			continue
+		}
+		if st, ok := d.Resolve(pdfstrict.Ref{Num: num}).(*pdfstrict.Stream); ok && st.Plain != nil && !known[sha256.Sum256(st.Plain)] {
+			return true
+		}
+	}
+	return false
+}
+
 type outVerdict struct {
 	file    string
 	relaxed error
 	strict  error
 	c15     bool // the output holds a rewritten page content stream that declares a predictor (root cause recorded under C15)
+	shared  bool // "missing required resource subdict" and the output holds a rewritten content stream shared by several pages
 }
 
 type caseOut struct {
@@ -195,6 +256,7 @@ func main() {
 		t.Rule("case = (opcat operation writing PDFs, input = fixture | corpus PDF <= 1 MB | pdfgen document — all accepted by api.ValidateFile relaxed —, seeded valid parameters, new output | in place); for a call that succeeds every PDF output must pass api.ValidateFile in relaxed mode; non-trivial = distinct (operation, input) pairs with at least one validated output")
 		t.Assume("strict-mode validation of the outputs is only counted, never a verdict (the property names relaxed mode): strict_invalid = outputs failing strict mode, strict_regression/<op> = those whose inputs all pass strict mode")
 		t.Assume("outputs that fail because pdfcpu re-encoded a page content stream that declares a /Predictor (Flate encoder ignores predictors: known finding of C15) are reported under the single key class=output-invalid/cause=predictor-content-stream-rewritten; the cause is established on the output bytes with pdfstrict, not from the error text")
+		t.Assume("outputs failing with \"missing required resource subdict\" that hold a content stream object shared by two or more pages whose data pdfcpu rewrote (stamp / CreateFile on a proper subset of the pages sharing it) are reported under the single key class=output-invalid/cause=shared-content-stream-rewritten")
 		t.Assume("operations that copy bytes (PatchFile, pdfcpu.Write*, pdfcpu.CopyFile) or have no PDF output are out of scope; at most 24 outputs per call are validated (first 12 and last 12 by name)")
 		t.Assume("derived inputs (fixture shapes enc/wm/boxes made from a pool document with pdfcpu) are validated before use; a derived input that does not validate voids the case (counted as input_invalid_derived)")
 
@@ -297,6 +359,9 @@ func main() {
 					v.strict = validateAny(f, true)
 					if v.relaxed != nil {
 						v.c15 = predictorStreamRewritten(inputBytes, f)
+						if !v.c15 && strings.Contains(v.relaxed.Error(), "missing required resource subdict") {
+							v.shared = sharedStreamRewritten(inputBytes, f)
+						}
 					}
 					co.outs = append(co.outs, v)
 				}
@@ -378,6 +443,9 @@ func main() {
 				if v.c15 {
 					key = "class=output-invalid/cause=predictor-content-stream-rewritten"
 					t.Count("relaxed_invalid_c15_rooted", 1)
+				} else if v.shared {
+					key = "class=output-invalid/cause=shared-content-stream-rewritten"
+					t.Count("relaxed_invalid_shared_content_stream", 1)
 				}
 				h := hits[key]
 				if h == nil {
